@@ -213,7 +213,13 @@ func (r *Report) Finish(t testing.TB) {
 	r.mu.Lock()
 	defer r.mu.Unlock()
 	r.DistinctNontrivial = len(r.nontrivial)
-	sort.Slice(r.Violations, func(i, j int) bool { return r.Violations[i].Key < r.Violations[j].Key })
+	sort.Slice(r.Violations, func(i, j int) bool {
+		a, b := r.Violations[i], r.Violations[j]
+		if (a.Replay == "") != (b.Replay == "") {
+			return a.Replay != ""
+		}
+		return a.Key < b.Key
+	})
 	out := envOr("VERIF_OUT", filepath.Join(workDir(), "result_manual.json"))
 	os.MkdirAll(filepath.Dir(out), 0o755)
 	b, _ := json.MarshalIndent(r, "", " ")
